@@ -150,6 +150,46 @@ pub fn check_subsets(cx: &mut Cx, mask: u64) {
     cx.maximum("max_subset_mask_bits", n as u64);
 }
 
+/// For masks too large to enumerate: the first `n` subsets must be exactly the first `n` in numeric
+/// order, i.e. the k-th subset is k's bits spread over the mask's bits.
+pub fn check_subsets_prefix(cx: &mut Cx, mask: u64, n: u64) {
+    cx.eval();
+    let bits: Vec<usize> = (0..64).filter(|&i| (mask >> i) & 1 == 1).collect();
+    let kth = |k: u64| -> u64 {
+        let mut out = 0u64;
+        for (j, &b) in bits.iter().enumerate() {
+            if j < 64 && (k >> j) & 1 == 1 {
+                out |= 1u64 << b;
+            }
+        }
+        out
+    };
+    let total: u128 = 1u128 << bits.len();
+    let want_n = (n as u128).min(total) as u64;
+    let r = guard(|| {
+        let mut it = BitBoard(mask).iter_subsets();
+        let mut got = Vec::with_capacity(want_n as usize);
+        for _ in 0..want_n {
+            match it.next() {
+                Some(s) => got.push(s.0),
+                None => break,
+            }
+        }
+        got
+    });
+    match r {
+        Ok(got) => {
+            if got.len() as u64 != want_n {
+                v(cx, "iter_subsets|ends-early", format!("iter_subsets of {:#018x} ({} bits) stopped after {} subsets, expected at least {}", mask, bits.len(), got.len(), want_n), mask, 0);
+            } else if let Some(k) = (0..want_n).find(|&k| got[k as usize] != kth(k)) {
+                v(cx, "iter_subsets|wrong-prefix", format!("iter_subsets of {:#018x}: subset number {} is {:#x}, expected {:#x}", mask, k, got[k as usize], kth(k)), mask, 0);
+            }
+        }
+        Err(e) => v(cx, "panic|iter_subsets", format!("iter_subsets of {:#018x} panicked: {}", mask, e), mask, 0),
+    }
+    cx.count("subset-prefix-checks");
+}
+
 fn interesting(cx: &mut Cx) -> u64 {
     match cx.rng.below(12) {
         0 => 0,
@@ -233,13 +273,27 @@ pub fn run(cfg: &Cfg) -> Result<Outcome, String> {
             check_subsets(cx, 0);
             check_subsets(cx, 1u64 << 63);
             check_subsets(cx, 0x8000_0000_0000_0001);
+            check_subsets_prefix(cx, !0u64, 4096);
+            check_subsets_prefix(cx, !1u64, 4096);
+            check_subsets_prefix(cx, !0u64 >> 1, 4096);
+        }
+        // large masks: first subsets only
+        let n_big = if cx.miri { 4 } else { cx.budget(1600, 32_000) };
+        for i in 0..n_big {
+            let mask = match i % 4 {
+                0 => cx.rng.next_u64(),
+                1 => !cx.rng.sparse(3),
+                2 => cx.rng.next_u64() | cx.rng.next_u64(),
+                _ => !(1u64 << cx.rng.below(64)),
+            };
+            check_subsets_prefix(cx, mask, if cx.miri { 16 } else { 512 });
         }
         cx.sample(|| "a=0x00000000000000ff b=0x0101010101010101: union/intersection/xor/difference/complement, subset tests, iteration, flips".to_string());
     })?;
     Ok(Outcome {
         stats,
         rule: "pairs drawn from {empty, full, singletons, ranks, files, sparse, dense, complements, subsets/supersets of each other}: every operator and assigning form, predicates, len, next_square, iteration order + exact remaining length at every step, FromIterator, From<Square|File|Rank>, both flips; iter_subsets on masks of up to 14 (quick) / 20 (thorough) bits: all 2^n subsets once, strictly increasing; distinct = (a, b) with a not empty/full".to_string(),
-        floors: vec![Floor { counter: "subset-enumerations", at_least: 300 }],
+        floors: vec![Floor { counter: "subset-enumerations", at_least: 300 }, Floor { counter: "subset-prefix-checks", at_least: 1000 }],
         exhaustive: false,
         exhaustive_note: "sampled pairs; subset enumeration exhaustive per mask".to_string(),
         inconclusive: None,
